@@ -88,6 +88,24 @@ class Callback:
         _append(self.path, '%s %d\n' % (self.tag, label_of(graph)))
 
 
+class EvaluationAborted(Exception):
+    """raised by AbortingCallback: escapes evaluate_single and aborts the whole evaluation"""
+
+
+class AbortingCallback(Callback):
+    """post-evaluation callback that raises on its fail_at-th call (a fault outside the metrics)"""
+
+    def __init__(self, path, tag='c', fail_at=1):
+        super().__init__(path, tag)
+        self.fail_at, self.calls = fail_at, 0
+
+    def __call__(self, graph):
+        super().__call__(graph)
+        self.calls += 1
+        if self.calls >= self.fail_at:
+            raise EvaluationAborted('evaluation aborted by the C05 harness')
+
+
 class Delegate(DelegateEvaluator):
     """compute_graphs returns modified copies: label add + mul*position + g, last `drop` missing"""
 
@@ -136,6 +154,12 @@ def build_population(sc):
         elif d['kind'] == 'pre':
             fit = MultiObjFitness(values=tuple(d['pre']), weights=1.) if d['pre_multi'] else SingleObjFitness(*d['pre'])
             pop.append(Individual(make_graph(d['label']), fitness=fit))
+        elif d['kind'] == 'inplace':
+            # default-constructed individual whose (already known) fitness is stored through the public
+            # in-place API of Fitness
+            ind = Individual(make_graph(d['label']))
+            ind.fitness.values = tuple(d['pre'])
+            pop.append(ind)
         elif d['kind'] == 'rep':
             pop.append(pop[d['ref']])
         elif d['kind'] == 'dup':
@@ -143,6 +167,23 @@ def build_population(sc):
         else:
             raise ValueError(d['kind'])
     return pop
+
+
+def intended_fitness(sc):
+    """the fitness every individual of a freshly built population has by construction: none for a
+    default-constructed one nothing was assigned to (NOT read back from the objects - an Individual that reports
+    a fitness nobody gave it is a fault of the code under test, not part of the input)"""
+    out = []
+    for d in sc['pop']:
+        if d['kind'] in ('new', 'dup'):
+            out.append(['N', []])
+        elif d['kind'] == 'pre':
+            out.append(['M' if d['pre_multi'] else 'S', [float(v) for v in d['pre']]])
+        elif d['kind'] == 'inplace':
+            out.append(['S', [float(v) for v in d['pre']]])
+        else:
+            out.append(out[d['ref']])
+    return out
 
 
 def canon_fit(f):
@@ -201,7 +242,7 @@ def make_dispatcher(run, dg):
     return disp, delegate
 
 
-def evaluate_step(disp, delegate, sc, run, tmpdir, pop=None, cb_tag='c'):
+def evaluate_step(disp, delegate, sc, run, tmpdir, pop=None, cb_tag='c', abort_at=None):
     """dispatch(objective, timer) + set callback + one evaluation on `disp`; canonical observation.
     Returns (observation, population objects)."""
     path = os.path.join(tmpdir, 'events.log')
@@ -211,16 +252,19 @@ def evaluate_step(disp, delegate, sc, run, tmpdir, pop=None, cb_tag='c'):
     delays = {int(k): v for k, v in run.get('delays', {}).items()}
     metrics = {'m%d' % k: Metric(k, table, delays, path) for k in range(sc['nmetrics'])}
     objective = Objective(metrics, is_multi_objective=sc['multi'])
-    if pop is None:
+    fresh = pop is None
+    if fresh:
         pop = build_population(sc)
-    disp.set_graph_evaluation_callback(Callback(path, cb_tag))
+    if delegate is not None and sc.get('delegate'):
+        delegate.enabled = bool(sc['delegate']['enabled'])        # is_enabled is read at every evaluation
+    disp.set_graph_evaluation_callback(AbortingCallback(path, cb_tag, abort_at) if abort_at else Callback(path, cb_tag))
     timer, entered = make_timer(sc['timer'])
     # canonical uid: position of the first individual of the input carrying that uid string
     first = {}
     for j, ind in enumerate(pop):
         first.setdefault(ind.uid, j)
     uids_in = [first[ind.uid] for ind in pop]
-    pre_in = [canon_fit(ind.fitness) for ind in pop]
+    pre_in = intended_fitness(sc) if fresh else [canon_fit(ind.fitness) for ind in pop]
     labels_in = [label_of(ind.graph) for ind in pop]
     calls_before = len(delegate.calls) if delegate else 0
     raised = None
@@ -268,7 +312,8 @@ def observe_session(ses, tmpdir):
     out, pop = [], None
     for st in ses['steps']:
         ob, pop = evaluate_step(disp, delegate, st['sc'], run, tmpdir, pop=pop if st.get('reuse') else None,
-                                cb_tag=st.get('cb', 'c'))
+                                cb_tag=st.get('cb', 'c'), abort_at=st.get('abort_at'))
+        ob['aborted'] = bool(st.get('abort_at'))
         out.append((st['sc'], run, ob))
     return out
 
@@ -326,6 +371,7 @@ def coq_case(sc, run, ob):
 # ----------------------------------------------------------------------------------------
 VALUES = [-2.0, -0.75, 0.0, 0.25, 0.5, 1.0, 1.5, 3.0]
 FAILS = ['raise', 'none', 'nan']
+PRE_VALUES = [-3.0, -1.25, 0.125, 0.75, 2.5, 4.0]      # fitness given beforehand: no metric returns these
 
 
 def gen_row(rng, nmetrics, p_fail):
@@ -346,7 +392,7 @@ def gen_scenario(rng, n, allow_fake_timer=True, allow_delegate=True, force=None)
     share_label = force.get('share', True) and rng.random() < 0.08          # two individuals with equal graphs
     pop = []
     for j in range(n):
-        pres = [k for k, d in enumerate(pop) if d['kind'] == 'pre']
+        pres = [k for k, d in enumerate(pop) if d['kind'] in ('pre', 'inplace')]
         r = rng.random()
         label = j
         if share_label and j > 0 and rng.random() < 0.3:
@@ -357,8 +403,11 @@ def gen_scenario(rng, n, allow_fake_timer=True, allow_delegate=True, force=None)
                 pop.append({'kind': 'rep', 'ref': k, 'label': pop[k]['label']})
             else:
                 pm = rng.random() < 0.3
-                pop.append({'kind': 'pre', 'label': label, 'pre_multi': pm,
-                            'pre': [rng.choice(VALUES) for _ in range(2 if pm else rng.choice([1, 2]))]})
+                if not pm and rng.random() < 0.45:
+                    pop.append({'kind': 'inplace', 'label': label, 'pre': [rng.choice(PRE_VALUES) for _ in range(rng.choice([1, 2]))]})
+                else:
+                    pop.append({'kind': 'pre', 'label': label, 'pre_multi': pm,
+                                'pre': [rng.choice(PRE_VALUES) for _ in range(2 if pm else rng.choice([1, 2]))]})
         else:
             pop.append({'kind': 'new', 'label': label})
     if force.get('dup') and n >= 2:
@@ -404,11 +453,31 @@ def gen_scenario(rng, n, allow_fake_timer=True, allow_delegate=True, force=None)
 def gen_session(rng, par, n_jobs):
     """one dispatcher object, 2..4 rounds of dispatch(objective, timer) + evaluate; the objective, the timer and
     the callback change between the rounds; a round may re-evaluate the population objects of the previous one"""
+    free = ['none', 'none', 'generous', 'generous_opt']
+    if rng.random() < 0.3:
+        # a round with an ENABLED delegate is aborted by an exception escaping the evaluation (raising callback);
+        # then the delegate is switched off (mostly) and the same, still unevaluated individuals are evaluated again
+        dg = {'add': 100, 'mul': rng.choice([0, 20]), 'drop': 0, 'enabled': True}
+        while True:
+            sc0 = gen_scenario(rng, rng.choice([1, 2, 3, 4, 6]), allow_fake_timer=False, allow_delegate=False,
+                               force={'timer': rng.choice(free), 'delegate': dict(dg), 'share': False,
+                                      'p_pre': rng.choice([0.0, 0.0, 0.25])})
+            news = sum(1 for d in sc0['pop'] if d['kind'] == 'new')
+            if news:
+                break
+        steps = [{'sc': sc0, 'cb': rng.choice(['c', 'k']), 'reuse': False, 'abort_at': rng.choice([1, min(2, news)]) if n_jobs == 1 else 1}]   # the counter is per worker process
+        sc1 = dict(sc0, timer={'kind': rng.choice(free)}, delegate=dict(dg, enabled=rng.random() < 0.25),
+                   table={g: gen_row(rng, sc0['nmetrics'], rng.choice([0.0, 0.0, 0.3])) for g in sc0['table']})
+        steps.append({'sc': sc1, 'cb': rng.choice(['c', 'k']), 'reuse': True})
+        if rng.random() < 0.4:
+            sc2 = gen_scenario(rng, rng.choice([1, 2, 4]), allow_fake_timer=False, allow_delegate=False,
+                               force={'timer': rng.choice(free), 'delegate': dict(dg, enabled=rng.random() < 0.5), 'share': False})
+            steps.append({'sc': sc2, 'cb': rng.choice(['c', 'k']), 'reuse': False})
+        return {'par': par, 'n_jobs': n_jobs, 'delegate': dg, 'steps': steps}
     dg = None
     if rng.random() < 0.3:
         dg = {'add': 100, 'mul': rng.choice([0, 20]), 'drop': rng.choice([0, 0, 1]), 'enabled': rng.random() < 0.85}
     limited = ['expired', 'expired_opt', 'tiny']
-    free = ['none', 'none', 'generous', 'generous_opt']
     shape = rng.random()
     if shape < 0.4:
         timers = [rng.choice(limited), 'none'] + [rng.choice(limited + free) for _ in range(rng.choice([0, 0, 1, 2]))]
@@ -439,17 +508,18 @@ def gen_delays(rng, sc):
 
 
 def small_scope():
-    """exhaustive: populations of <= 2 individuals over {new-ok, new-raise, new-none, new-nan, pre},
+    """exhaustive: populations of <= 2 individuals over {new-ok, new-raise, new-none, new-nan, pre, pre-in-place},
     timers {generous, expired}, both dispatchers (n_jobs 1), single objective"""
-    kinds = ['ok', 'raise', 'none', 'nan', 'pre']
+    kinds = ['ok', 'raise', 'none', 'nan', 'pre', 'inplace']
     pops = [[]] + [[a] for a in kinds] + [[a, b] for a in kinds for b in kinds]
     out = []
     for p in pops:
         for tk in ('generous', 'expired'):
             pop, table = [], {}
             for j, k in enumerate(p):
-                if k == 'pre':
-                    pop.append({'kind': 'pre', 'label': j, 'pre_multi': False, 'pre': [0.5]})
+                if k in ('pre', 'inplace'):
+                    pop.append({'kind': 'pre', 'label': j, 'pre_multi': False, 'pre': [0.75]} if k == 'pre' else
+                               {'kind': 'inplace', 'label': j, 'pre': [0.75]})
                     table[str(j)] = [1.0]
                 else:
                     pop.append({'kind': 'new', 'label': j})
@@ -465,12 +535,12 @@ def in_scope(sc):
 
 def classify(sc, run, ob):
     news = [d for d in sc['pop'] if d['kind'] in ('new', 'dup')]
-    pre = [d for d in sc['pop'] if d['kind'] in ('pre', 'rep')]
+    pre = [d for d in sc['pop'] if d['kind'] in ('pre', 'rep', 'inplace')]
     fails = sum(1 for d in news if any(isinstance(b, str) for b in sc['table'][str(d['label'])]))
     mix = 'none-new' if not news else 'all-fail' if fails == len(news) else 'all-ok' if fails == 0 else 'mixed'
     return dict(dispatcher='parallel' if run['par'] else 'sequential', n_jobs=run['n_jobs'] if run['par'] else 0,
                 size=len(sc['pop']), timer=sc['timer']['kind'], failures=mix,
-                pre_evaluated='some' if pre else 'none', repeated=any(d['kind'] == 'rep' for d in sc['pop']),
+                pre_evaluated='some' if pre else 'none', in_place=any(d['kind'] == 'inplace' for d in sc['pop']), repeated=any(d['kind'] == 'rep' for d in sc['pop']),
                 delegate=('enabled' if sc['delegate']['enabled'] else 'disabled') if sc.get('delegate') else 'absent',
                 objective='multi' if sc['multi'] else 'single', metrics=sc['nmetrics'],
                 returned=len(ob['out']), in_scope=in_scope(sc))
@@ -544,8 +614,12 @@ def run(ctx):
                 'answers by call index), an optional delegate evaluator (shifted labels, position dependent, '
                 'truncated output, disabled), n_jobs 1/2/4 and per-graph sleeps permuting completion. Sessions: ONE dispatcher '
                 'object dispatched 2..4 times with changing objective / time limit (expired, tiny, none, generous) / '
-                'callback, optionally re-evaluating the same Individual objects; every round is a case. Exhaustive '
-                'small scope: all populations of <= 2 individuals over 5 kinds x 2 timers x 2 dispatchers. '
+                'callback, optionally re-evaluating the same Individual objects, or with a round (enabled delegate) aborted '
+                'by an exception escaping the evaluation, the delegate then switched off and the same individuals '
+                'evaluated again; every completed round is a case. Pre-existing fitness is given either by '
+                'Individual(graph, fitness=...) or by in-place assignment on a default-constructed Individual; the '
+                'fitness an individual has by construction is what the case states, not what the object reports. Exhaustive '
+                'small scope: all populations of <= 2 individuals over 6 kinds x 2 timers x 2 dispatchers. '
                 'distinct = distinct (scenario, dispatcher, n_jobs, delays); non-trivial = in the quantifier of the '
                 'property and at least one individual to evaluate.')
     ctx.trusted_extra = [
@@ -621,6 +695,13 @@ def run(ctx):
         for par, nj in plan:
             ses = gen_session(rng, par, nj)
             for k, (sc, rn, ob) in enumerate(observe_session(ses, tmpdir)):
+                if ob['aborted']:
+                    # not a case: the model does not describe an evaluation that an escaping exception aborts;
+                    # what counts is that the rounds after it are unaffected
+                    if ob['raised'] is None:
+                        ctx.error('sessions', 'the round that was to be aborted did not raise: %r' % (ses,))
+                    ctx.count('aborted-rounds', key=repr(ses), nontrivial=False, dispatcher='parallel' if par else 'sequential')
+                    continue
                 triples.append((sc, rn, ob, {'session': ses, 'step': k}))
         ctx.set_exhaustive('sessions', False)
         evaluate_cases(ctx, 'sessions', triples)
@@ -685,7 +766,8 @@ def replay(ctx, payload):
         try:
             ses = case['session']
             evaluate_cases(ctx, 'replay', [(sc, rn, ob, {'session': ses, 'step': k})
-                                           for k, (sc, rn, ob) in enumerate(observe_session(ses, tmpdir))])
+                                           for k, (sc, rn, ob) in enumerate(observe_session(ses, tmpdir))
+                                           if not ob['aborted']])
         finally:
             shutil.rmtree(tmpdir, ignore_errors=True)
         return
